@@ -99,3 +99,16 @@ func (e *TErr) Error() string {
 	}
 	return e.Msg
 }
+
+// Loc0..Loc3: functions whose code pointers are handed to dig.LocationForPC (Fn.LocPC): dig then reports the
+// constructor under this location (errors, callbacks, pictures) while its ID stays the constructor's own.
+func Loc0() {}
+func Loc1() {}
+func Loc2() {}
+func Loc3() {}
+
+var LocFuncs = []func(){Loc0, Loc1, Loc2, Loc3}
+
+// VS is a universe type of SLICE kind (a value carries its token in its first element); a nil VS is a legitimate
+// value - for instance a member of a value group - that carries none.
+type VS []V0
